@@ -310,4 +310,208 @@ theorem ensembleStep_iter (step : M → M) (done : M → Bool) : ∀ (k : Nat) (
     rw [Function.iterate_succ_apply, ih]
     simp [ensembleStep, Function.iterate_succ]
 
+/-! ### ensembles: the `_live` flag and the deferred decoration -/
+
+variable {S : Type}
+
+theorem bootstrapM_live (a : MAlg S) (m : Mem S) : (bootstrapM a m).live = true := by
+  unfold bootstrapM; split <;> simp_all
+
+theorem bootstrapM_of_live (a : MAlg S) (m : Mem S) (h : m.live = true) : bootstrapM a m = m := by
+  simp [bootstrapM, h]
+
+/-- a live member that is terminated and has a step record: `Step` stops at its own stop test -/
+theorem mStep_of_stopped (a : MAlg S) (m : Mem S) (hl : m.live = true) (hs : a.started m.st = true)
+    (ht : a.term m.st = true) : mStep a m = (m, true) := by
+  simp [mStep, bootstrapM_of_live a m hl, hs, ht]
+
+/-- **a finished member is left alone by the ensemble's mapped `_step`** - whatever a decoration would do -/
+theorem ensMemberStep_finished (a : MAlg S) (m : Mem S) (h : Finished a m) : ensMemberStep a m = m := by
+  obtain ⟨hl, ht, hs⟩ := h
+  cases m with
+  | mk st live ndec niter =>
+    simp only at hl ht hs
+    subst hl
+    simp [ensMemberStep, toggled, ht, mStep_of_stopped a { st := st, live := true, ndec := ndec, niter := niter } rfl hs ht]
+
+/-- ... and by the mapped `_solve` of a run-to-completion `Solve` -/
+theorem ensMemberSolve_finished (a : MAlg S) (fuel : Nat) (m : Mem S) (h : Finished a m) :
+    ensMemberSolve a (fuel + 1) m = (m, true) := by
+  obtain ⟨hl, ht, hs⟩ := h
+  cases m with
+  | mk st live ndec niter =>
+    simp only at hl ht hs
+    subst hl
+    simp [ensMemberSolve, toggled, ht, mSolve,
+      mStep_of_stopped a { st := st, live := true, ndec := ndec, niter := niter } rfl hs ht]
+
+/-- the toggle does not fire: the member is live or not terminated -/
+def Plain (a : MAlg S) (m : Mem S) : Prop := (!m.live && a.term m.st) = false
+
+/-- the members an ensemble call may meet: the toggle does not fire, or the member is finished -/
+def Regular (a : MAlg S) (m : Mem S) : Prop := Plain a m ∨ Finished a m
+
+theorem ensMemberStep_plain (a : MAlg S) (m : Mem S) (h : Plain a m) : ensMemberStep a m = (mStep a m).1 := by
+  unfold Plain at h
+  simp [ensMemberStep, toggled, h]
+
+theorem ensMemberSolve_plain (a : MAlg S) (fuel : Nat) (m : Mem S) (h : Plain a m) :
+    ensMemberSolve a fuel m = mSolve a fuel m := by
+  unfold Plain at h
+  simp [ensMemberSolve, toggled, h]
+
+/-- the three exits of `Step` -/
+theorem mStep_cases (a : MAlg S) (m : Mem S) :
+    (mStep a m = (bootstrapM a m, true) ∧ a.started (bootstrapM a m).st = true ∧ a.term (bootstrapM a m).st = true) ∨
+    (mStep a m = ({ bootstrapM a m with st := a.fin (a.iter (bootstrapM a m).st), live := false,
+                                        niter := (bootstrapM a m).niter + 1 },
+                  a.term (a.fin (a.iter (bootstrapM a m).st))) ∧ a.term (a.iter (bootstrapM a m).st) = true) ∨
+    (mStep a m = ({ bootstrapM a m with st := a.iter (bootstrapM a m).st, niter := (bootstrapM a m).niter + 1 }, false) ∧
+      a.term (a.iter (bootstrapM a m).st) = false) := by
+  unfold mStep
+  by_cases h1 : (a.started (bootstrapM a m).st && a.term (bootstrapM a m).st) = true
+  · left
+    simp only [h1, if_true, true_and]
+    simpa using h1
+  · by_cases h2 : a.term (a.iter (bootstrapM a m).st) = true
+    · right; left
+      simp [h1, h2]
+    · right; right
+      simp [h1, h2]
+
+/-- a `Step` that returns a message leaves a fixed point of the ensemble's `_step`, provided an iteration that
+    stops leaves a step record -/
+theorem mStep_stop_fixed (a : MAlg S) (hrec : ∀ s, a.term (a.iter s) = true → a.started (a.fin (a.iter s)) = true)
+    (m : Mem S) (h : (mStep a m).2 = true) : ensMemberStep a (mStep a m).1 = (mStep a m).1 := by
+  rcases mStep_cases a m with ⟨e, hs, ht⟩ | ⟨e, ht⟩ | ⟨e, _⟩
+  · rw [e]
+    have hl := bootstrapM_live a m
+    rw [ensMemberStep_plain a _ (by simp [Plain, hl]), mStep_of_stopped a _ hl hs ht]
+  · rw [e] at h ⊢
+    exact ensMemberStep_finished a _ ⟨rfl, h, hrec _ ht⟩
+  · rw [e] at h; cases h
+
+/-- a `Step` that returns no message leaves a member on which the toggle does not fire -/
+theorem mStep_go_plain (a : MAlg S) (m : Mem S) (h : (mStep a m).2 = false) : Plain a (mStep a m).1 := by
+  rcases mStep_cases a m with ⟨e, _, _⟩ | ⟨e, _⟩ | ⟨e, _⟩
+  · rw [e] at h; cases h
+  · rw [e] at h ⊢
+    simp only at h
+    simp [Plain, h]
+  · rw [e]
+    simp [Plain, bootstrapM_live a m]
+
+theorem iterate_fixed' {α : Type} (f : α → α) (x : α) (h : f x = x) : ∀ k, f^[k] x = x := by
+  intro k
+  induction k with
+  | zero => rfl
+  | succ k ih => rw [Function.iterate_succ_apply, h, ih]
+
+/-- `Solve` on a member on which the toggle does not fire = as many ensemble `Step`s as one likes, once `Solve` has
+    come back with a message -/
+theorem plain_steps_eq_solve (a : MAlg S) (hrec : ∀ s, a.term (a.iter s) = true → a.started (a.fin (a.iter s)) = true) :
+    ∀ (fuel : Nat) (m : Mem S), Plain a m → (mSolve a fuel m).2 = true →
+      ∀ k, fuel ≤ k → (ensMemberStep a)^[k] m = (mSolve a fuel m).1 := by
+  intro fuel
+  induction fuel with
+  | zero => intro m _ h; simp [mSolve] at h
+  | succ fuel ih =>
+    intro m hp h k hk
+    obtain ⟨k', rfl⟩ : ∃ k', k = k' + 1 := ⟨k - 1, by omega⟩
+    rw [Function.iterate_succ_apply, ensMemberStep_plain a m hp]
+    by_cases hs : (mStep a m).2 = true
+    · simp only [mSolve, hs, if_true]
+      exact iterate_fixed' _ _ (mStep_stop_fixed a hrec m hs) k'
+    · have hs' : (mStep a m).2 = false := by simpa using hs
+      simp only [mSolve, hs', Bool.false_eq_true, if_false] at h ⊢
+      exact ih _ (mStep_go_plain a m hs') h k' (by omega)
+
+/-- member level: the mapped `_solve` = any sufficient number of mapped `_step`s -/
+theorem member_steps_eq_solve (a : MAlg S) (hrec : ∀ s, a.term (a.iter s) = true → a.started (a.fin (a.iter s)) = true)
+    (fuel : Nat) (m : Mem S) (hr : Regular a m) (h : (ensMemberSolve a fuel m).2 = true) (k : Nat) (hk : fuel ≤ k) :
+    (ensMemberStep a)^[k] m = (ensMemberSolve a fuel m).1 := by
+  rcases hr with hp | hf
+  · rw [ensMemberSolve_plain a fuel m hp] at h ⊢
+    exact plain_steps_eq_solve a hrec fuel m hp h k hk
+  · cases fuel with
+    | zero =>
+      exfalso
+      obtain ⟨hl, ht, _⟩ := hf
+      simp [ensMemberSolve, toggled, hl, ht, mSolve] at h
+    | succ fuel =>
+      rw [ensMemberSolve_finished a fuel m hf]
+      exact iterate_fixed' _ _ (ensMemberStep_finished a m hf) k
+
+/-- the ensemble's `_step` keeps members regular -/
+theorem regular_step (a : MAlg S) (hrec : ∀ s, a.term (a.iter s) = true → a.started (a.fin (a.iter s)) = true)
+    (m : Mem S) (hr : Regular a m) : Regular a (ensMemberStep a m) := by
+  rcases hr with hp | hf
+  · rw [ensMemberStep_plain a m hp]
+    rcases mStep_cases a m with ⟨e, _, _⟩ | ⟨e, ht⟩ | ⟨e, _⟩
+    · rw [e]; left; simp [Plain, bootstrapM_live a m]
+    · rw [e]
+      by_cases h2 : a.term (a.fin (a.iter (bootstrapM a m).st)) = true
+      · right; exact ⟨rfl, h2, hrec _ ht⟩
+      · left; simp [Plain, h2]
+    · rw [e]; left; simp [Plain, bootstrapM_live a m]
+  · rw [ensMemberStep_finished a m hf]; exact Or.inr hf
+
+theorem regular_steps (a : MAlg S) (hrec : ∀ s, a.term (a.iter s) = true → a.started (a.fin (a.iter s)) = true)
+    (m : Mem S) (hr : Regular a m) : ∀ j, Regular a ((ensMemberStep a)^[j] m) := by
+  intro j
+  induction j with
+  | zero => exact hr
+  | succ j ih => rw [Function.iterate_succ_apply']; exact regular_step a hrec _ ih
+
+theorem ensStepL_iter (a : MAlg S) : ∀ (k : Nat) (ms : List (Mem S)),
+    (ensStepL a)^[k] ms = ms.map ((ensMemberStep a)^[k]) := by
+  intro k
+  induction k with
+  | zero => intro ms; simp
+  | succ k ih =>
+    intro ms
+    rw [Function.iterate_succ_apply, ih]
+    simp [ensStepL, Function.iterate_succ]
+
+/-- live, or finished: the states in which no decoration is pending -/
+def Settled (a : MAlg S) (m : Mem S) : Prop := m.live = true ∨ Finished a m
+
+theorem settled_step (a : MAlg S)
+    (hfin : ∀ s, a.term (a.iter s) = true → a.term (a.fin (a.iter s)) = true ∧ a.started (a.fin (a.iter s)) = true)
+    (m : Mem S) (h : Settled a m) : Settled a (ensMemberStep a m) ∧ (ensMemberStep a m).ndec = m.ndec := by
+  rcases h with hl | hf
+  · rw [ensMemberStep_plain a m (by simp [Plain, hl])]
+    have hb := bootstrapM_of_live a m hl
+    rcases mStep_cases a m with ⟨e, _, _⟩ | ⟨e, ht⟩ | ⟨e, _⟩
+    · rw [e, hb]; exact ⟨Or.inl hl, rfl⟩
+    · rw [e, hb]
+      rw [hb] at ht
+      exact ⟨Or.inr ⟨rfl, (hfin _ ht).1, (hfin _ ht).2⟩, rfl⟩
+    · rw [e, hb]; exact ⟨Or.inl hl, rfl⟩
+  · rw [ensMemberStep_finished a m hf]; exact ⟨Or.inr hf, rfl⟩
+
+theorem settled_steps (a : MAlg S)
+    (hfin : ∀ s, a.term (a.iter s) = true → a.term (a.fin (a.iter s)) = true ∧ a.started (a.fin (a.iter s)) = true)
+    (m : Mem S) (h : Settled a m) : ∀ k, Settled a ((ensMemberStep a)^[k] m) ∧ ((ensMemberStep a)^[k] m).ndec = m.ndec := by
+  intro k
+  induction k with
+  | zero => exact ⟨h, rfl⟩
+  | succ k ih =>
+    rw [Function.iterate_succ_apply']
+    have := settled_step a hfin _ ih.1
+    exact ⟨this.1, this.2.trans ih.2⟩
+
+/-- the first `_step` of a member that is neither live nor terminated decorates once and settles it -/
+theorem fresh_step (a : MAlg S)
+    (hfin : ∀ s, a.term (a.iter s) = true → a.term (a.fin (a.iter s)) = true ∧ a.started (a.fin (a.iter s)) = true)
+    (m : Mem S) (hl : m.live = false) (ht : a.term m.st = false) :
+    Settled a (ensMemberStep a m) ∧ (ensMemberStep a m).ndec = m.ndec + 1 := by
+  rw [ensMemberStep_plain a m (by simp [Plain, ht])]
+  have hb : (bootstrapM a m).ndec = m.ndec + 1 := by simp [bootstrapM, hl]
+  have hbl := bootstrapM_live a m
+  rcases mStep_cases a m with ⟨e, _, _⟩ | ⟨e, ht'⟩ | ⟨e, _⟩
+  · rw [e]; exact ⟨Or.inl hbl, hb⟩
+  · rw [e]; exact ⟨Or.inr ⟨rfl, (hfin _ ht').1, (hfin _ ht').2⟩, hb⟩
+  · rw [e]; exact ⟨Or.inl hbl, hb⟩
+
 end MysticVerif.Sched
